@@ -69,6 +69,25 @@ def documented_forms():
     yield ("doc", "func-returning-func"), [("let", "mk", ("func", ["a"], ("func", ["b"], B("+", SYM("a"), SYM("b"))))), ("let", "g", ("call", SYM("mk"), [I(1)])),
                                            ("let", "r", ("call", SYM("g"), [I(2)]))]
     yield ("doc", "in-on-bound"), [("let", "t", tup), ("let", "r", B("in", SYM("a"), SYM("t"))), ("let", "r2", B("in", S("zz"), SYM("t")))]
+    # forms reported as rejected by an independent agent while it looked for a C07 seed
+    yield ("doc", "param-two-fields"), [("let", "f", ("func", ["t"], B("+", B(".", SYM("t"), SYM("a")), B(".", SYM("t"), SYM("b"))))),
+                                        ("let", "r", ("call", SYM("f"), [T(("a", I(1)), ("b", I(2)))]))]
+    yield ("doc", "param-two-fields-reduce"), [("let", "r", ("reduce", ("func", ["acc", "p"], B("+", SYM("acc"), B("*", B(".", SYM("p"), SYM("w")), B(".", SYM("p"), SYM("h"))))),
+                                                     I(0), L(T(("w", I(2)), ("h", I(3))))))]
+    yield ("doc", "acc-two-fields-reduce"), [("let", "r", ("reduce", ("func", ["acc", "x"], T(("sum", B("+", B(".", SYM("acc"), SYM("sum")), SYM("x"))),
+                                                                                                 ("n", B("+", B(".", SYM("acc"), SYM("n")), I(1))))),
+                                                   T(("sum", I(0)), ("n", I(0))), L(I(1), I(2))))]
+    yield ("doc", "map-over-indexed-nested-list"), [("let", "r", ("map", ("func", ["x"], SYM("x")), B(".", L(L(I(1), I(2)), L(I(3))), I(0))))]
+    yield ("doc", "map-over-bound-nested-list"), [("let", "ll", L(L(I(1), I(2)), L(I(3)))), ("let", "r", ("map", ("func", ["x"], B("+", SYM("x"), I(1))), B(".", SYM("ll"), I(0))))]
+    yield ("doc", "param-shadows-let-of-other-type"), [("let", "x", S("s")), ("let", "f", ("func", ["x"], B("+", SYM("x"), I(1)))), ("let", "r", ("call", SYM("f"), [I(1)]))]
+    yield ("doc", "param-shadows-let-tuple"), [("let", "t", T(("a", I(1)))), ("let", "f", ("func", ["t"], B("+", SYM("t"), S("!")))), ("let", "r", ("call", SYM("f"), [S("s")]))]
+    yield ("doc", "callback-param-shadows-let"), [("let", "x", S("s")), ("let", "r", ("map", ("func", ["x"], B("*", SYM("x"), I(2))), L(I(1), I(2))))]
+    yield ("doc", "module-local-shadows-nothing"), [("let", "q", S("s")), ("let", "m", ("module", [("p", I(1))], None, [("let", "q", B("+", B(".", SYM("mod"), SYM("p")), I(1)))])),
+                                                     ("let", "r", ("copy", SYM("m"), []))]
+    yield ("doc", "func-used-at-two-types"), [("let", "idf", ("func", ["v"], SYM("v"))), ("let", "a", ("call", SYM("idf"), [I(1)])), ("let", "b", ("call", SYM("idf"), [S("s")])),
+                                               ("let", "r", B("+", SYM("b"), S("!")))]
+    yield ("doc", "tuple-param-then-other-tuple"), [("let", "g", ("func", ["t"], B(".", SYM("t"), SYM("a")))), ("let", "a", ("call", SYM("g"), [T(("a", I(1)))])),
+                                                     ("let", "b", ("call", SYM("g"), [T(("a", S("s")), ("z", I(0)))]))]
     yield ("doc", "null-field-override"), [("let", "t", T(("a", ("null",)))), ("let", "r", ("copy", SYM("t"), [("a", I(1))]))]
 
 
